@@ -18,6 +18,7 @@ var profiles = map[string]Profile{
 	"replica":    {Name: "replica", Blocks: 24, MaxTx: 4, Oracle: true, Wrongness: 25, Jail: true, Probono: true, OracleFee: "0.5", Replica: true, MultiTx: true, PeriodMax: 12},
 	"roundtrip":  {Name: "roundtrip", Blocks: 20, MaxTx: 4, Oracle: true, Wrongness: 20, Jail: true, MultiTx: true, Roundtrip: true, PeriodMax: 14, Mint: true},
 	"isolation":  {Name: "isolation", Blocks: 24, MaxTx: 5, Oracle: true, Wrongness: 10, Isolation: true, PeriodMax: 10, Faults: false},
+	"erc20":      {Name: "erc20", Blocks: 24, MaxTx: 4, Oracle: true, Wrongness: 10, Erc20: true, Internal: true, PeriodMax: 6, MultiTx: true},
 	"periods":    {Name: "periods", Blocks: 20, MaxTx: 4, Oracle: true, Wrongness: 5, BigPeriods: true, Internal: true},
 }
 
